@@ -1,7 +1,12 @@
 package models
 
 import (
+	"time"
+
+	ibctm "github.com/cosmos/ibc-go/v11/modules/light-clients/07-tendermint"
+
 	cmtproto "github.com/cometbft/cometbft/proto/tendermint/types"
+	"verifharness/verif"
 
 	"encoding/hex"
 	"strings"
@@ -197,4 +202,10 @@ func HeaderGetChainID(h *cmtproto.Header) string {
 		return ""
 	}
 	return h.ChainID
+}
+
+// TMHeader builds a Tendermint header with the given chain id, height, time (whole seconds after 1970) and hashes.
+func TMHeader(chainID string, height, sec int64, appHash, nextValsHash []byte) *ibctm.Header {
+	verif.Assume(sec >= 0 && sec < 253402300800)
+	return &ibctm.Header{SignedHeader: &cmtproto.SignedHeader{Header: &cmtproto.Header{ChainID: chainID, Height: height, Time: time.Unix(sec, 0).UTC(), AppHash: appHash, NextValidatorsHash: nextValsHash}}}
 }
